@@ -241,7 +241,7 @@ def build_harness(name, extra_flags=(), sanitize=True):
     """Compile harness/<name>.cpp against /repo/include (content-hash cached). Returns (path|None, log)."""
     src = os.path.join(HARNESS, name + ".cpp")
     flags = list(CXXFLAGS if sanitize else ["-std=c++17", "-O1", "-g", "-Wno-everything"]) + list(extra_flags)
-    key = _tree_hash([os.path.join(REPO, "include"), HARNESS]) + hashlib.sha256(" ".join(flags).encode()).hexdigest()[:8]
+    key = _tree_hash([os.path.join(REPO, "include"), src] + sorted(glob.glob(os.path.join(HARNESS, "*.hpp")))) + hashlib.sha256(" ".join(flags).encode()).hexdigest()[:8]
     outdir = os.path.join(BUILD, "h", name)
     binp = os.path.join(outdir, key)
     with Lock("h_" + name):
